@@ -121,7 +121,7 @@ func Seq(rt *rapid.T, cols, rows int) string {
 			"\x1b]11;?\x07", "\x1b]11;#fff\x07", "\x1b]52;c;aGk=\x07", "\x1b]52;c;!!\x07", "\x1b]52;c\x07", "\x1b]52\x07", "\x1b]4;1;?\x07", "\x1b]\x07", "\x1b];\x07"}).Draw(rt, "osc")
 	case 19:
 		return rapid.SampledFrom([]string{"\x1b_Gi=1,a=q\x1b\\", "\x1b_x\x1b\\", "\x1b_\x1b\\", "\x1bPq#0;2;0;0;0#0~~@@vv@@~~@@~~$\x1b\\", "\x1bP0;0;8q\"1;1;4;4#0~~\x1b\\", "\x1bPq\x1b\\", "\x1bPqgarbage\x1b\\", "\x1bP$q q\x1b\\", "\x1bP+q524742\x1b\\", "\x1bP1;2|x\x1b\\",
-			"\x1bPq!99999999999999~\x1b\\", "\x1bPq\"1;1;999999999;999999999#0~\x1b\\", "\x1bPq!16384~-!16385~\x1b\\"}).Draw(rt, "str")
+			"\x1bPq!99999999999999~\x1b\\", "\x1bPq\"1;1;999999999;999999999#0~\x1b\\", "\x1bPq!16384~-!16385~\x1b\\", "\x1bPq! 20000000000000000p\x1b\\", "\x1bPq#99999999999;2;0;0;0#0~\x1b\\"}).Draw(rt, "str")
 	case 20:
 		// bursts of event-raising sequences
 		n := rapid.IntRange(2, 8).Draw(rt, "burst")
